@@ -346,6 +346,22 @@ impl ReliableMessage {
     }
 }
 
+/// Verification hook: plain view of the per-exchange MRP state.
+#[cfg(rs_matter_verif)]
+impl ReliableMessage {
+    /// `(retrans: (base_delay, msg_ctr, counter), ack: (msg_ctr, acknowledged), received_at.is_some())`
+    #[allow(clippy::type_complexity)]
+    pub fn verif_state(&self) -> (Option<(u32, u32, u16)>, Option<(u32, bool)>, bool) {
+        (
+            self.retrans
+                .as_ref()
+                .map(|r| (r.base_delay_interval_ms, r.msg_ctr, r.counter)),
+            self.ack.as_ref().map(|a| (a.msg_ctr, a.acknowledged)),
+            self.received_at.is_some(),
+        )
+    }
+}
+
 #[cfg(test)]
 mod tests {
     use super::*;
